@@ -63,7 +63,23 @@ func genCase(r *kit.Rand, i int, tier string) (chain, stop, class string, n int)
 	if hasFail && class == "gated" {
 		class = "drained"
 	}
-	downstream := depth*(edgeCap+1) + 1 // what fits between the ingest edge and a blocked last node
+	// what fits between the ingest edge and the first output that blocks while the gate is closed
+	block := 0
+	for j, k := range nodes {
+		if k == "post" || strings.HasPrefix(k, "influx") {
+			block = j + 1
+			if k != "post" {
+				block = -(j + 1)
+			}
+			break
+		}
+	}
+	downstream := depth*(edgeCap+1) + 1
+	if block > 0 {
+		downstream = (block+1)*(edgeCap+1) + 1
+	} else if block < 0 {
+		downstream = (-block+1)*(edgeCap+1) + b
+	}
 	switch class {
 	case "early":
 		n = 0
